@@ -28,6 +28,92 @@ type Case struct {
 	Script gen.Script `json:"script"`
 	Style  string     `json:"style"`
 	Auto   bool       `json:"auto,omitempty"` // through auto.Render(t, style) instead of the wrapper type's Render()
+	// Seq, if set, replaces Style/Auto: renders interleaved with the build history, all on the SAME table.
+	Seq []RenderAt `json:"seq,omitempty"`
+}
+
+// RenderAt: after At operations of the history (0 = before the first), render in Style; Reuse = through the
+// wrapper of that style created at its first use (else a fresh wrapper / auto.Render).
+type RenderAt struct {
+	At    int    `json:"at"`
+	Style string `json:"style"`
+	Auto  bool   `json:"auto,omitempty"`
+	Reuse bool   `json:"reuse,omitempty"`
+}
+
+// oneRender checks one render of t for totality.
+func oneRender(t tabular.Table, w renderer, style string, viaAuto bool) *ev.Violation {
+	var out string
+	var err, err2 error
+	var b bytes.Buffer
+	if viaAuto {
+		out, err = auto.Render(t, style)
+		err2 = auto.RenderTo(t, &b, style)
+	} else {
+		out, err = w.Render()
+		err2 = w.RenderTo(&b)
+	}
+	if err != nil {
+		if out != "" {
+			return ev.V("%s: Render returned error %q together with text %q", style, err, out)
+		}
+		if err2 == nil {
+			return ev.V("%s: Render failed (%v) but RenderTo on the same table succeeded", style, err)
+		}
+		return nil
+	}
+	if err2 != nil {
+		return ev.V("%s: Render succeeded but RenderTo failed: %v", style, err2)
+	}
+	if b.String() != out {
+		return ev.V("%s: Render returned %q, RenderTo wrote %q", style, out, b.String())
+	}
+	if out != "" && !strings.HasSuffix(out, "\n") {
+		return ev.V("%s: output is not newline-terminated (incomplete?): %q", style, out)
+	}
+	return nil
+}
+
+func checkSeq(c Case) *ev.Violation {
+	t := gen.NewTable(c.Script.Creator)
+	m := &gen.Model{}
+	long := map[string]renderer{}
+	renderAt := func(k int) *ev.Violation {
+		for i, r := range c.Seq {
+			at := r.At
+			if at > len(c.Script.Ops) {
+				at = len(c.Script.Ops)
+			}
+			if at != k {
+				continue
+			}
+			var w renderer
+			if !r.Auto {
+				if r.Reuse {
+					if long[r.Style] == nil {
+						long[r.Style] = wrap(t, r.Style)
+					}
+					w = long[r.Style]
+				} else {
+					w = wrap(t, r.Style)
+				}
+			}
+			if v := oneRender(t, w, r.Style, r.Auto); v != nil {
+				return ev.V("render %d (after %d of %d operations, reused wrapper %v): %s", i+1, k, len(c.Script.Ops), r.Reuse, v.Msg)
+			}
+		}
+		return nil
+	}
+	if v := renderAt(0); v != nil {
+		return v
+	}
+	for i, op := range c.Script.Ops {
+		m.Step(t, op)
+		if v := renderAt(i + 1); v != nil {
+			return v
+		}
+	}
+	return nil
 }
 
 type renderer interface {
@@ -52,6 +138,9 @@ func wrap(t tabular.Table, style string) renderer {
 }
 
 func CheckCase(c Case) *ev.Violation {
+	if len(c.Seq) > 0 {
+		return checkSeq(c)
+	}
 	t, _ := gen.Build(c.Script)
 	var out string
 	var err error
@@ -136,6 +225,20 @@ func Facts(s gen.Script) (nt bool, classes []string) {
 
 func Classify(c Case) (bool, interface{}, []string) {
 	nt, cl := Facts(c.Script)
+	if len(c.Seq) > 0 {
+		cl = append(cl, "render-sequence")
+		mid := false
+		for _, r := range c.Seq {
+			if r.At < len(c.Script.Ops) {
+				mid = true
+			}
+		}
+		if mid {
+			cl = append(cl, "render-before-history-complete")
+			nt = true
+		}
+		return nt, nil, cl
+	}
 	cl = append(cl, "style-"+c.Style)
 	if c.Auto {
 		cl = append(cl, "via-auto")
